@@ -177,6 +177,28 @@ pub fn lex_inputs(seed: u64, n: u64, enumerate: bool) -> Vec<String> {
         for r in raws {
             out.push(format!("\"{r}\" 1"));
         }
+        // comments: every body up to length 3 over an alphabet of characters that mean something elsewhere
+        // (quote, backslash, slash, star), ended by a line feed, by CR LF and by the end of the text
+        let calpha: [char; 7] = ['a', '"', '\\', '/', ' ', '*', 'é'];
+        let mut bodies: Vec<String> = vec![String::new()];
+        let mut layer: Vec<String> = vec![String::new()];
+        for _ in 0..3 {
+            let mut next = Vec::new();
+            for c in &layer {
+                for ch in calpha {
+                    let mut s = c.clone();
+                    s.push(ch);
+                    next.push(s);
+                }
+            }
+            bodies.extend(next.iter().cloned());
+            layer = next;
+        }
+        for b in bodies {
+            out.push(format!("1 //{b}\n2 \"s\" 3"));
+            out.push(format!("x//{b}\r\ny"));
+            out.push(format!("ja //{b}"));
+        }
     }
     let mut rng = StdRng::seed_from_u64(seed);
     for _ in 0..n {
@@ -185,7 +207,16 @@ pub fn lex_inputs(seed: u64, n: u64, enumerate: bool) -> Vec<String> {
         for _ in 0..k {
             let t = if rng.gen_bool(0.04) { ILLEGAL.choose(&mut rng).unwrap() } else { vocab.choose(&mut rng).unwrap() };
             s.push_str(t);
-            s.push_str(SEPS.choose(&mut rng).unwrap());
+            if rng.gen_bool(0.08) {
+                // a comment with a random body
+                s.push_str(" //");
+                for _ in 0..rng.gen_range(0..6) {
+                    s.push(*['a', '"', '\\', '/', ' ', '*', 'é', '\t', '{'].choose(&mut rng).unwrap());
+                }
+                s.push('\n');
+            } else {
+                s.push_str(SEPS.choose(&mut rng).unwrap());
+            }
         }
         out.push(s);
     }
